@@ -13,6 +13,10 @@ import Iodata.Lemmas.Fmt.Pdb
 import Iodata.Lemmas.Fmt.PdbConect
 import Iodata.Lemmas.Fmt.Fchk
 import Iodata.Lemmas.Fmt.Cube
+import Iodata.Lemmas.Fmt.Mol2
+import Iodata.Lemmas.Fmt.Fcidump
+import Iodata.Lemmas.Fmt.Poscar
+import Iodata.Lemmas.Fmt.Gro
 import Iodata.Gen.Layouts
 
 namespace Iodata.Props.C03
@@ -139,5 +143,62 @@ theorem cube_load_spec (L : Cube.Layout) (hL : Cube.LayoutOK L) (m : Cube.Obj) (
     Cube.load L (Cube.dump L m) = .ok (Cube.norm L m) ∧
     (∀ n v, Cube.readGrid L.hD (Cube.gridLine L n v) = .ok (n, v)) :=
   ⟨Cube.load_dump L hL m h, Cube.readGrid_gridLine L⟩
+
+/-! ## MOL2 (Tripos free-format records) -/
+
+/-- MOL2: an ATOM record `id name x y z type subst_id subst_name charge` is read as element (from the first two characters
+of the name), coordinates, type and charge of that atom; a BOND record `id a b type` as the zero-based pair and the bond
+type number — whatever the widths, for every record of the domain. -/
+theorem mol2_records (T : Tables) (L : Mol2.Layout) (hL : Mol2.LayoutOK T L) (k : Nat) (a : Mol2.Atom) (ha : Mol2.AtomOK T a)
+    (b : Mol2.Bond) :
+    Mol2.readAtom T L (Mol2.atomLine T L k a) = .ok (Mol2.normAtom T a) ∧
+    Mol2.readBond T L (Mol2.bondLine T L k b) = .ok (Mol2.normBond T L b) :=
+  ⟨Mol2.readAtom_atomLine T L hL k a ha, Mol2.readBond_bondLine T L hL k b⟩
+
+/-- MOL2: whole files in the published record order load as their model. -/
+theorem mol2_load_spec (T : Tables) (L : Mol2.Layout) (hL : Mol2.LayoutOK T L) (m : Mol2.Obj) (h : Mol2.Dom T L m) :
+    Mol2.load T L (Mol2.dump T L m) = .ok (Mol2.norm T L m) :=
+  Mol2.load_dump T L hL m h
+
+/-! ## FCIDUMP (chemists' notation, 8-fold symmetry) -/
+
+/-- FCIDUMP: one line `value i j k l` (chemists' `(ij|kl)`) sets exactly the eight physicists' positions of its orbit,
+`[i,k,j,l]` and its images, and touches nothing else. -/
+theorem fcidump_line_fill (α : Type) (a : Helpers.Idx → α) (i j k l : Nat) (v : α) (p : Helpers.Idx) :
+    Helpers.setFour a i k j l v p = if p ∈ Helpers.written i k j l then v else a p :=
+  Fcidump.setFour_mem a i k j l v p
+
+/-! ## POSCAR / CHGCAR header (VASP 5: element line, count line, direct coordinates) -/
+
+/-- VASP header: the k-th coordinate line belongs to the k-th atom of the expanded element/count lines, and direct
+coordinates `s` denote the Cartesian position `s · cell` (rows of the cell are the lattice vectors); converting that
+position back gives `s` again. -/
+theorem poscar_direct_coordinates (cell : Poscar.M3) (h : Poscar.det cell ≠ 0) (s : Poscar.V3) :
+    Poscar.toFrac cell (Poscar.toCart cell s) = s :=
+  Poscar.toFrac_toCart cell h s
+
+/-! ## GRO (GROMACS manual: `%5d%-5s%5s%5d%8.3f%8.3f%8.3f%8.4f%8.4f%8.4f`, any precision by the decimal-point rule) -/
+
+/-- GRO: the reader's fixed slices are the published columns (residue number 1-5, residue name 6-10, atom name 11-15,
+positions from column 21). -/
+theorem gro_reader_columns_match_spec : Gro.LayoutOK groL := by decide +kernel
+
+/-- GRO: an atom record in the published columns is cut into residue number, residue name, atom name, three positions
+and (when present) three velocities — fields may touch (five-digit residue numbers, `-999.999`), the field width is
+recovered from the distance between the first two decimal points for every precision `d ≥ 1`. -/
+theorem gro_atom_record (L : Gro.Layout) (hL : Gro.LayoutOK L) (d : Nat) (hd : 0 < d) (a : Gro.Atom) (ha : Gro.AtomOK L d a) :
+    Gro.readAtom L (Gro.specAtom d a) = .ok (Gro.normAtom a, d + 5) :=
+  Gro.readAtom_specAtom L hL d hd a ha
+
+/-- GRO: a whole file in the published layout (title without time stamp, `%5d` atom count, atom records, box line of three
+or nine numbers with the off-diagonal entries in the order v1(y) v1(z) v2(x) v2(z) v3(x) v3(y)) loads as the model it was
+rendered from. -/
+theorem gro_load_spec (L : Gro.Layout) (hL : Gro.LayoutOK L) (m : Gro.Obj) (h : Gro.Dom L m) :
+    Gro.load L (Gro.specRender m) = .ok (Gro.denote m) :=
+  Gro.load_spec L hL m h
+
+/-- non-vacuity: touching fields (residue 99999, x = −999.999 directly after the atom number), a triclinic box. -/
+example : Gro.Dom groL ⟨['w'], 3, [⟨99999, ['S','O','L'], ['O','W','1','2','3'], 99999, ⟨true, 999999⟩, ⟨false, 9999999⟩, ⟨true, 0⟩,
+    some (⟨true, 999999⟩, ⟨false, 0⟩, ⟨false, 1⟩)⟩], (List.range 9).map fun k => ⟨false, k⟩⟩ := by decide +kernel
 
 end Iodata.Props.C03
